@@ -357,12 +357,30 @@ func fmtOperandsRule(c *Ctx, r *R) {
 			default:
 				return true
 			}
-			va, ok := unparen(call.Args[len(call.Args)-1]).(*ast.Ident)
-			if !ok {
-				return true
-			}
-			o := c.Obj(va)
+			// the operand slice: a local of the shim, or what a helper of the package builds and returns
 			encl := c.EnclosingFunc(call)
+			var o types.Object
+			spread := unparen(call.Args[len(call.Args)-1])
+			if va, ok := spread.(*ast.Ident); ok {
+				o = c.Obj(va)
+				if def := c.singleDef(va); def != nil {
+					if hc, ok := unparen(def).(*ast.CallExpr); ok && c.DeclOf(c.Callee(hc)) != nil {
+						spread = hc
+					}
+				}
+			}
+			if hc, ok := spread.(*ast.CallExpr); ok {
+				if h := c.DeclOf(c.Callee(hc)); h != nil && h.Body != nil {
+					ast.Inspect(h.Body, func(m ast.Node) bool {
+						if rs, ok := m.(*ast.ReturnStmt); ok && len(rs.Results) == 1 {
+							if id, ok := unparen(rs.Results[0]).(*ast.Ident); ok {
+								o, encl = c.Obj(id), h
+							}
+						}
+						return true
+					})
+				}
+			}
 			if encl == nil || o == nil {
 				return true
 			}
